@@ -112,6 +112,11 @@ def _stack(run, P):
     is_pop = lambda x: isinstance(x, ast.Call) and dotted(x.func) == "self.node_stack.pop"
     is_push = lambda x: isinstance(x, ast.Call) and dotted(x.func) == "self.node_stack.append"
     is_comb = lambda x: isinstance(x, ast.Call) and dotted(x.func) == "self.combine"
+    if "combine" not in C.methods or not any(
+            isinstance(x, ast.Attribute) and x.attr == "node_stack"
+            for m_ in C.methods.values() for x in ast.walk(m_.node)):
+        raise AnalysisError("_ConstantFindingMapper keeps no node stack / has no combine(): "
+                            "classifier architecture not recognised")
     for name in ("rec", "__call__"):
         f = C.methods.get(name)
         if f is None:
@@ -136,6 +141,25 @@ def _stack(run, P):
         total = None
         if pops is not None and combs is not None:
             total = (pops[0] + combs[0], pops[1] + combs[1])
+        if total == (0, 0):
+            # a handler that leaves the work to the library's handler (tracing in front of
+            # it, say): balanced exactly when that is the handler of the same node kind
+            sup = [x for x in ast.walk(f.node) if isinstance(x, ast.Call)
+                   and (dotted(x.func) or "").startswith("super().map_")]
+            rets = [r for r in ast.walk(f.node) if isinstance(r, ast.Return) and r.value is not None]
+            if sup and len(rets) == len(sup) and all(
+                    sum(1 for y in ast.walk(r.value) if y in sup) == 1 for r in rets):
+                names_here = {n_ for n_, f_ in overridden.items() if f_ is f}
+                wrong = sorted(n_ for n_ in names_here for x in sup
+                               if dotted(x.func) != f"super().{n_}")
+                run.ob("C18.stack", f, sup[0], not wrong,
+                       construct=f"{'/'.join(sorted(names_here))}: hands the node to the library handler "
+                                 f"of its own kind" + (f" (not so for {wrong}: {norm(sup[0].func)})"
+                                                       if wrong else ""),
+                       why="reached under another name (an alias), the handler passes the node to "
+                           "the library handler of a different node kind, which does not look at "
+                           "all of its children (keyword arguments of a call, say)")
+                continue
         run.ob("C18.stack", f, f.node, total == (1, 1),
                construct=f"{name}: pops {pops} + combine() calls {combs} per invocation",
                why="a handler that leaves its node on the stack makes the next "
@@ -227,8 +251,15 @@ def _const(run, P):
     rec = E.methods["rec"]
     e = rec.params[1]
     tests = [n for n in ast.walk(rec.node) if isinstance(n, ast.If)]
-    ok = bool(tests) and norm(tests[0].test) == f"_is_atomic({e}) or not self.is_constant[{e}]" \
-        and any(has(f"IdentityMapper.rec(self, {e})", s_) for s_ in tests[0].body)
+    from .util import path_conditions
+    want = f"_is_atomic({e}) or not self.is_constant[{e}]"
+    keep = [s_ for s_ in ast.walk(rec.node) if isinstance(s_, ast.Return)
+            and has(f"IdentityMapper.rec(self, {e})", s_)]
+    hoist = [s_ for s_ in ast.walk(rec.node) if isinstance(s_, ast.Return) and s_ not in keep]
+    # whichever way round the conditional is written
+    ok = bool(tests) and bool(keep) and bool(hoist) \
+        and all((want, True) in path_conditions(rec.node, s_) for s_ in keep) \
+        and all((want, False) in path_conditions(rec.node, s_) for s_ in hoist)
     run.ob("C18.const", rec, tests[0] if tests else rec.node, ok,
            construct="rec: hoist only if not atomic and is_constant[expr]",
            why="hoisting a non-constant subexpression changes the value")
@@ -383,7 +414,15 @@ def _regroup_classes(run, P):
     for name, m in E.methods.items():
         for x in ast.walk(m.node):
             if isinstance(x, ast.Call) and dotted(x.func) == "self.map_commut_assoc" and len(x.args) == 2:
-                passed[name] = (dotted(x.args[1]), m)
+                a1 = x.args[1]
+                if isinstance(a1, ast.Call) and dotted(a1.func) in ("partial", "functools.partial") \
+                        and len(a1.args) == 2 and dotted(a1.args[1]):
+                    # partial(<helper that splices nested nodes of the class>, <the class>)
+                    passed[name] = (dotted(a1.args[1]), m)
+                elif dotted(a1) is None:
+                    raise AnalysisError(f"{name}: regrouping function {norm(a1)[:40]} not recognised")
+                else:
+                    passed[name] = (dotted(a1), m)
     n = 0
     for name, (cls_, m) in sorted(passed.items()):
         if name == "map_commut_assoc":
@@ -566,8 +605,8 @@ def _table(run, P):
             if isinstance(x, ast.Call) and dotted(x.func) == "self.new_var_func":
                 n_new += 1
                 par = [a for a in ast.walk(m.node) if isinstance(a, ast.Assign) and a.value is x
-                       and len(a.targets) == 1 and isinstance(a.targets[0], ast.Name)]
-                v = par[0].targets[0].id if par else None
+                       and any(isinstance(t_, ast.Name) for t_ in a.targets)]
+                v = next(t_.id for t_ in par[0].targets if isinstance(t_, ast.Name)) if par else None
                 stored = v is not None and any(
                     isinstance(a, ast.Assign) and any(
                         isinstance(t, ast.Subscript) and dotted(t.value) == "self.assignments"
@@ -575,7 +614,7 @@ def _table(run, P):
                     for a in ast.walk(m.node))
                 if not stored:
                     bad.append(m.name)
-    run.ob("C18.table", E.methods["rec"], None, n_new >= 2 and not bad,
+    run.ob("C18.table", E.methods["rec"], None, n_new >= 1 and not bad,
            construct=f"{n_new} calls of new_var_func(); each result is entered with "
                      f"self.assignments[<it>] = ..." + (f" (not in {sorted(set(bad))})" if bad else ""),
            why="a variable that is created and not entered is never assigned")
